@@ -9,6 +9,9 @@ import (
 //
 //verif:harness prop=C08 name=byteslicepool_clean unwind=40
 func VerifBSP() {
+	if !zzverif.Symbolic() {
+		vOneP()
+	}
 	sp := NewByteSlicePool(4)
 	b := sp.Get(zzverif.Choose("cap", 8))
 	zzverif.Assert(len(b) == 0, "fresh_slice_empty")
@@ -18,6 +21,11 @@ func VerifBSP() {
 	b = append(b, secret...)
 	r := sp.Resize(b, n+zzverif.Choose("grow", 8))
 	zzverif.Assert(zzverif.EqBytes(r[:n], secret), "resize_keeps_contents")
+	// the caller still holds b (it has not put it back): nobody else is handed its array, whether Resize grew or not
+	o1 := sp.Get(2)
+	o2 := sp.Get(2)
+	zzverif.Assert(!zzverif.SameArray(o1, b) && !zzverif.SameArray(o2, b) && !zzverif.SameArray(o1, o2), "buffer_still_held_is_not_handed_out")
+	zzverif.Assert(!zzverif.SameArray(o1, r) && !zzverif.SameArray(o2, r), "buffer_still_held_is_not_handed_out")
 	sp.Put(b)
 	if !zzverif.Symbolic() {
 		// native replay: the engine replaces the contents of a pooled buffer by arbitrary bytes on Put (the previous
